@@ -338,6 +338,28 @@ def gen_project(rng):
             "resources": resources, "tasks": tasks, "deps": deps}
 
 
+def gen_twin_project(rng):
+    """two containers with the SAME local id under different parents, whose children use the same
+    relative reference strings for different targets (reference resolution must be per position)"""
+    base = gen_project(rng)
+    res = [r["id"] for r in base["resources"]]
+    cid = rng.choice(["dev", "box", "in"])
+
+    def phase(pid, e1, e2):
+        return {"id": pid, "kids": [{"id": cid, "kids": [
+            {"id": "spec", "kids": [], "effort": e1, "res": rng.choice(res), "prio": None},
+            {"id": "impl", "kids": [], "effort": e2, "res": rng.choice(res), "prio": rng.choice([None, 900])}],
+            "effort": None, "res": None, "prio": None}], "effort": None, "res": None, "prio": None}
+    e = list(EFFORTS)
+    rng.shuffle(e)
+    tasks = [phase("ph1", e[0], e[1]), phase("ph2", e[2 % len(e)], e[3 % len(e)])]
+    deps = [{"src": ["ph1", cid, "impl"], "dst": ["ph1", cid, "spec"], "gap": None, "onstart": False},
+            {"src": ["ph2", cid, "impl"], "dst": ["ph2", cid, "spec"], "gap": rng.choice([None, "3h"]), "onstart": False}]
+    base["tasks"] = tasks
+    base["deps"] = deps
+    return base
+
+
 def project_ids(proj):
     tids = set()
 
